@@ -618,8 +618,9 @@ def on_tuple(instance: Instance, ctx: Context) -> JSONArraySchema:
                 unpack_idx = arg_idx
         if unpack_schema:
             prefix_items.extend(unpack_schema.prefixItems or [])
+            if unpack_schema.maxItems is not None:
+                max_items = min_items + unpack_schema.maxItems
             min_items += unpack_schema.minItems or 0
-            max_items += unpack_schema.maxItems or 0
             if unpack_idx == len(args):
                 items = unpack_schema.items
         else:
